@@ -292,26 +292,55 @@ def run(prog, rep, tier='quick', config='default'):
     if rep.anchor('yearly-maximum function (HashMap<i32, Date>)', yearly):
         f = yearly[0]
         insy = [c for c in f.calls if c.short == 'insert' and re.search(r'HashMap<i32, time::Date>', f.ty.get(c.arg_local(0), ''))]
+        # the same store through the entry API: `match map.entry(day.year()) { Occupied(e) => .. e.insert(day), Vacant(e) => e.insert(day) }`
+        YENTRY = r'(Occupied|Vacant)Entry<.*i32, time::Date'
+        einsy = [c for c in f.calls if c.short == 'insert' and re.search(YENTRY, f.ty.get(c.arg_local(0), '') or '') and len(c.args) == 2]
         okk = True
         for c in insy:
             ko = mir.provenance(f, c.args[1], follow_all_call_args=True)
             vo = mir.provenance(f, c.args[2], follow_all_call_args=True)
             if not ko.has_call(r'time::Date::year$') or not (ko.locals & vo.locals):
                 okk = False
+        for c in einsy:
+            eo = mir.provenance(f, c.args[0], follow_all_call_args=False)
+            ent = [x for x in eo.calls if x.short == 'entry' and re.search(r'HashMap<i32, time::Date>', f.ty.get(x.arg_local(0), '') or '') and len(x.args) > 1]
+            if not ent:
+                okk = False
+                continue
+            ko = mir.provenance(f, ent[0].args[1], follow_all_call_args=True)
+            vo = mir.provenance(f, c.args[1], follow_all_call_args=True)
+            if not ko.has_call(r'time::Date::year$') or not (ko.locals & vo.locals):
+                okk = False
+        insy = insy + einsy
         if insy and okk:
             rep.ok('R17d', 'day-filed-under-its-own-year', where=insy[0].where(), fn=f.name, detail='insert(day.year(), day) for the same day (%d sites)' % len(insy))
         else:
             rep.violation('R17d', 'day-filed-under-its-own-year', fn=f.name, where=insy[0].where() if insy else '', detail='a day is filed under a year that is not its own')
         cmps = [c for c in f.calls if re.search(r'PartialOrd::(lt|gt|le|ge)$', c.decl)]
         good = False
+        def fields_with_local_closures(x):
+            # a total fetched by a local closure (`let total_on = |d| map[d].total; total_on(a) < total_on(b)`): what the closure reads
+            fs = set(x.fields)
+            for y in x.calls:
+                if y.short in ('call', 'call_mut', 'call_once') and y.args:
+                    g2 = mir._closure_fn_of(prog, f, y.args[0])
+                    if g2 is None:
+                        for l_ in mir.provenance(f, y.args[0]).locals:
+                            g2 = g2 or mir._closure_fn_of(prog, f, {'k': 'copy', 'pl': {'l': l_, 'p': []}})
+                    if g2 is not None:
+                        for b_ in g2.blocks.values():
+                            for st_ in b_['stmts']:
+                                for pl_ in g2.stmt_sources(st_):
+                                    fs |= set(mir.place_fields(pl_))
+            return fs
         for c in cmps:
             o = [mir.provenance(f, a, follow_all_call_args=True) for a in c.args]
-            tot_fields = [any(of == DAY and fl == 'total' for of, fl in x.fields) for x in o]
+            tot_fields = [any(of == DAY and fl == 'total' for of, fl in fields_with_local_closures(x)) for x in o]
             if not all(tot_fields):
                 continue
             op = re.search(r'PartialOrd::(\w+)$', c.decl).group(1)
-            # which side is the remembered (old) day: derived from a HashMap<i32, Date>::get
-            old_side = [i for i in (0, 1) if any(x.short == 'get' and re.search(r'HashMap<i32, time::Date>', f.ty.get(x.arg_local(0), '')) for x in o[i].calls)]
+            # which side is the remembered (old) day: derived from a HashMap<i32, Date>::get (or from the occupied entry's value)
+            old_side = [i for i in (0, 1) if any(x.short == 'get' and re.search(r'HashMap<i32, time::Date>|OccupiedEntry<.*i32, time::Date', f.ty.get(x.arg_local(0), '') or '') for x in o[i].calls)]
             if len(old_side) != 1:
                 continue
             opn = op if old_side[0] == 0 else {'lt': 'gt', 'gt': 'lt', 'le': 'ge', 'ge': 'le'}[op]
